@@ -70,7 +70,14 @@ FloatSpecials == << [m |-> Zero, p |-> 9999], [m |-> Zero, p |-> 9998], [m |-> Z
 FloatRows == << [op |-> "construct", fn |-> "NewDecimalFromFloat", name |-> <<"NewDecimalFromFloat">>,
                  fs |-> FloatNums \o FloatSpecials] >>
 
-Rows == ParseRows \o NewDecRows \o FloatRows
+\* Duration.Duration(): around the largest millisecond count whose nanoseconds fit 64 bits (9223372036854), around the
+\* bound the implementation might confuse it with (9223372036854775 = MaxInt64 / 1000), and the boundary longs
+DurMs == << Mk(FALSE, <<6854, 7203, 2233, 9>>), Mk(FALSE, <<6855, 7203, 2233, 9>>), Mk(TRUE, <<6854, 7203, 2233, 9>>), Mk(TRUE, <<6855, 7203, 2233, 9>>),
+            Mk(FALSE, <<4775, 3685, 3720, 9223>>), Mk(FALSE, <<4776, 3685, 3720, 9223>>), Mk(TRUE, <<4775, 3685, 3720, 9223>>),
+            Mk(TRUE, <<4776, 3685, 3720, 9223>>), Mk(FALSE, <<0, 0, 0, 10>>), Mk(TRUE, <<0, 0, 0, 10>>), Mk(FALSE, <<9999, 9999, 9999, 9999>>) >>
+DurRows == << [op |-> "construct", fn |-> "Duration.Duration", name |-> <<"Duration.Duration">>, is |-> DurMs \o LongB] >>
+
+Rows == ParseRows \o NewDecRows \o FloatRows \o DurRows
 
 VARIABLES row, out
 vars == <<row, out>>
@@ -80,6 +87,7 @@ Init == row \in DOMAIN Rows /\ out = <<>>
 Expected(r) ==
   IF r.op = "parsetext" THEN [i \in DOMAIN r.texts |-> Obs(SpecRead(r.kind, r.texts[i]))]
   ELSE IF r.fn = "NewDecimal" THEN [i \in DOMAIN r.is |-> Obs(NewDecimalExact(r.is[i], r.e))]
+  ELSE IF r.fn = "Duration.Duration" THEN [i \in DOMAIN r.is |-> Obs(DurationToNanos(r.is[i]))]
   ELSE [i \in DOMAIN r.fs |-> IF r.fs[i].p > 9000 THEN Obs(PFail) ELSE Obs(NewDecimalFromFloatExact(r.fs[i].m, r.fs[i].p))]
 
 Compute == /\ out = <<>>
